@@ -41,12 +41,44 @@ impl Prop for C14 {
     }
     fn budget(&self, tier: Tier) -> u64 {
         match tier {
-            Tier::Quick => 100_000,
+            Tier::Quick => 150_000,
             Tier::Thorough => 3_000_000,
         }
     }
     fn required_labels(&self) -> Vec<&'static str> {
         vec!["walk", "order", "n=1", "n=16", "both_formats", "nontrivial"]
+    }
+    fn enumerate(&self, tier: Tier, shard: usize, nshards: usize, f: &mut dyn FnMut(Case)) {
+        let mut idx = 0usize;
+        for n in 1..=16usize {
+            let masks: Vec<u32> = if tier == Tier::Thorough || n <= 8 {
+                (0..(1u32 << n)).collect()
+            } else {
+                (0..64u32).map(|i| i.wrapping_mul(0x9E37_79B1) >> (32 - n as u32)).collect()
+            };
+            for mask in masks {
+                idx += 1;
+                if idx % nshards != shard {
+                    continue;
+                }
+                let vendors: Vec<(u8, u32, u16)> = (0..n)
+                    .map(|i| {
+                        let fmt = ((mask >> i) & 1) as u8;
+                        let id = 0x0102_0304u32.wrapping_mul(i as u32 + 1).wrapping_add(mask);
+                        (fmt, if fmt == 0 { id & 0xFFFF } else { id }, (0xA000 + i * 257) as u16)
+                    })
+                    .collect();
+                let cfg = CtxCfg { addr: 0x23, msg_types: vec![], vendors };
+                f(Case::Walk { cfg, s: 0x34, iid: (n as u8) & 0x1F, noise: vec![] });
+            }
+        }
+    }
+    fn enumerated_desc(&self, tier: Tier) -> Option<String> {
+        Some(if tier == Tier::Thorough {
+            "complete selector walks for every n in 1..16 and every one of the 2^n PCI/IANA format assignments (131070 configurations)".to_string()
+        } else {
+            "complete selector walks for every n in 1..8 with every one of the 2^n PCI/IANA format assignments, and 64 format assignments for each n in 9..16".to_string()
+        })
     }
     fn run(&self, case: &Case) -> CaseResult {
         let mut r = CaseResult::default();
